@@ -282,7 +282,7 @@ ExpRec(c, e) ==
    calls |-> SetToSeq(f.calls),
    missing |-> SetToSeq({SetToSortSeq(x, <) : x \in Missing(c, f.edges)}),
    connected |-> ResConnected(c, f.edges, f.removed),
-   \* classification of the open finding: the interactions the molecule has if WriteBack confuses version numbers with node keys
+   \* recognition of the repaired finding F17: the interactions the molecule has if WriteBack confuses version numbers with node keys
    verkey |-> LET d == StripLi(PIntsW(c, e.app, TRUE)) IN IF d = f.ints THEN <<>> ELSE SetToSeq(d),
    verkeydiffers |-> StripLi(PIntsW(c, e.app, TRUE)) # f.ints]
 InputRec(c) == [n |-> c.n, resid |-> c.resid, rattr |-> c.rattr, edges |-> c.edges, ff |-> FFIndex(c)]
